@@ -459,6 +459,34 @@ func (c *Ctx) MustTLC(o TLCOpts) *TLCResult {
 	return r
 }
 
+// Apalache runs `apalache-mc check` on a module of /verif/spec in a private directory. It returns "ok" (no error up
+// to the given length), "violation" (a counterexample exists) or an error for anything else.
+func (c *Ctx) Apalache(module string, args ...string) (string, error) {
+	dir, err := os.MkdirTemp(c.Work, "apalache-")
+	if err != nil {
+		return "", err
+	}
+	defer os.RemoveAll(dir)
+	b, err := os.ReadFile(filepath.Join(c.Root, "spec", module+".tla"))
+	if err != nil {
+		return "", err
+	}
+	if err := os.WriteFile(filepath.Join(dir, module+".tla"), b, 0o644); err != nil {
+		return "", err
+	}
+	cmd := exec.Command("timeout", append([]string{"900", "apalache-mc", "check"}, append(args, module+".tla")...)...)
+	cmd.Dir = dir
+	out, _ := cmd.CombinedOutput()
+	s := string(out)
+	switch {
+	case strings.Contains(s, "The outcome is: NoError"):
+		return "ok", nil
+	case strings.Contains(s, "The outcome is: Error"):
+		return "violation", nil
+	}
+	return "", fmt.Errorf("apalache %s %v: %s", module, args, tail(s, 15))
+}
+
 // balanced reports whether every << [ { ( opened in s (outside string literals) is closed.
 func balanced(s string) bool {
 	depth := 0
